@@ -7,6 +7,32 @@ import (
 func allChecks() []*Check {
 	return []*Check{
 		{
+			ID: "C14", Title: "Tracker answers are private snapshots, and the tracker is safe to share",
+			Harnesses: []Harness{
+				{Pkg: "state", Func: "VerifC14Step", Quick: map[string]int{"NN": 2, "NC": 1}, Thorough: map[string]int{"NN": 3, "NC": 2},
+					Asserts: []string{"at-most-one-critical-section", "lock-released", "monitor:all-accesses-under-lock", "result-is-private-copy"}},
+			},
+			Bounds:      map[string]string{"quick": "pre-state: any valid tracker state over 2 nick slots x 1 channel (as C12); one call of each of the 16 Tracker methods with symbolic name arguments", "thorough": "3 nick slots x 2 channels"},
+			Outside:     []string{"larger universes", "the step from 'every method body is exactly one critical section of one mutex, with every access to tracker-owned heap inside it' to linearizability and data-race freedom is the textbook argument and is not solver-checked; no concurrent history is executed"},
+			Stubs:       []string{"sync.Mutex / RWMutex ghost model with acquisition counter", "heap-reachability intrinsic vShares"},
+			QuickBudget: 5 * time.Minute, ThorBudget: 30 * time.Minute,
+		},
+		{
+			ID: "C12", Title: "The state tracker behaves as a relational model of nicks and channels",
+			Harnesses: []Harness{
+				{Pkg: "state", Func: "VerifC12Step", Quick: map[string]int{"NN": 3, "NC": 1, "ML": 2, "OP": -2}, Thorough: map[string]int{"NN": 3, "NC": 2, "ML": 3, "OP": -2},
+					Asserts: []string{"invariant", "GetNick", "GetChannel", "Me", "IsOn", "tracked-sets", "ReNick-result", "DelChannel-result"}, Note: "all methods but ChannelModes"},
+				{Pkg: "state", Func: "VerifC12Step", Quick: map[string]int{"NN": 2, "NC": 1, "ML": 1, "MA": 1, "OP": 8}, Thorough: map[string]int{"NN": 2, "NC": 1, "ML": 2, "MA": 2, "OP": 8},
+					Asserts: []string{"ChannelModes-result", "invariant"}, Note: "ChannelModes, every byte value"},
+				{Pkg: "state", Func: "VerifC12Step", Quick: map[string]int{"NN": 2, "NC": 1, "ML": 3, "MA": 2, "OP": 8, "ALPHA": 1, "PLUS": 1, "ONCHAN": 1}, Thorough: map[string]int{"NN": 2, "NC": 1, "ML": 3, "MA": 2, "OP": 8, "ALPHA": 1, "ONCHAN": 1},
+					Asserts: []string{"ChannelModes-result", "invariant"}, Note: "ChannelModes, representative alphabet"},
+			},
+			Bounds:      map[string]string{"quick": "pre-state: ANY valid tracker state over 2 nick slots (the client + 1) x 1 channel with every attribute, mode flag and privilege symbolic, names distinct symbolic 1-byte strings (channel names # or &); one call of each of the 13 mutating/query methods + NewTracker with symbolic arguments (names of 0..1 bytes); ChannelModes: 1 mode byte over all 256 values with <= 1 argument, and '+' followed by 2 bytes over a representative alphabet {+,-,i,k,l,o,v,?} with <= 2 arguments", "thorough": "3 nick slots x 2 channels; ChannelModes: 2 bytes over all values, 3 over the representative alphabet, <= 2 arguments"},
+			Outside:     []string{"larger universes (histories are unbounded by induction over the representation invariant)", "String() debug output", "mode strings in which an unspecified argument consumption (privilege change for a nick not on the channel, key removal) is followed by another argument-taking mode (left open by the property)"},
+			Stubs:       []string{"strconv.Atoi exact model (<= 18 digits)", "sync.Mutex ghost model", "map iteration: every order for maps of <= 3 entries"},
+			QuickBudget: 5 * time.Minute, ThorBudget: 40 * time.Minute,
+		},
+		{
 			ID: "C04", Title: "Every registered handler runs exactly once per matching event",
 			Harnesses: []Harness{
 				{Pkg: "client", Func: "VerifC04Step", Quick: map[string]int{"N": 2}, Thorough: map[string]int{"N": 3},
